@@ -290,6 +290,11 @@ def lower(e, doc, via_doc=True):
     if n == 'strict':
         # doc: sor< not_at< R1 >, seq< R... > >
         return L(E('sor', [E('not_at', [a[0]]), E('seq', a)]))
+    if n == 'sym2':
+        return e
+    if n == 'rematch':
+        doc.used.append((repr(e), 'rematch< R, S... >', 'prose: R matches, and each S matches the input that R matched (need not match all of it)', 'prose'))
+        return E('rematch', [L(a[0])] + [L(x) for x in a[1:]])
     if n == 'named':
         return E('named', [a[0], L(seqof(a[1:]))])
     if n in ('try_catch_raise_nested', 'try_catch_any_raise_nested', 'try_catch_std_raise_nested', 'try_catch_type_raise_nested'):
@@ -403,6 +408,12 @@ class Gen:
             L.append('    if (q == q0) return sp_div(q); }')
             L.append('  return sp_div(q);')
             return '\n'.join(L)
+        if n == 'rematch':
+            L = ['  out_t h = %s(p); if (h.r != 1) return h;' % s.fn(a[0]), '  out_t x;']
+            for x in a[1:]:
+                L.append('  x = %s(p, h.pos); if (x.r != 1) { if (x.r == 0) return sp_fail(p, h.far); return x; }' % s.fn2(x))
+            L.append('  return h;')
+            return '\n'.join(L)
         if n == 'named':
             return '  return %s(p);' % s.fn(a[1])
         if n == 'tcrn':
@@ -434,6 +445,49 @@ class Gen:
                 cond = '0'      # std::exception and unrelated types: neither harness exception derives from them
             return ('  out_t a = %s(p); if (%s) return sp_fail(p, a.far); return a;' % (f, cond))
         raise ValueError('no C semantics for %r' % e)
+
+    # ---- rules evaluated on a sub-input [.., end) (rematch): functions f(p, end)
+    def fn2(s, e):
+        k = '2:' + e.key()
+        if k in s.fns:
+            return s.fns[k]
+        name = 'r%d' % len(s.fns)
+        s.fns[k] = name
+        body = s.body2(e)
+        s.order.append('/* on sub-input: %s */\nstatic out_t %s(u64 p, u64 end) {\n%s\n}\n' % (e.key(), name, body))
+        return name
+
+    def body2(s, e):
+        n, a = e.name, e.args
+        if n == 'sym2':
+            return '  return sp_sym2(%d, p, end);' % ival(a[0])
+        if n == 'success':
+            return '  return sp_succ(p, p);'
+        if n == 'failure':
+            return '  return sp_fail(p, p);'
+        if n == 'eof':
+            return '  return p == end ? sp_succ(p, p) : sp_fail(p, p);'
+        if n == 'any':
+            return '  return p < end ? sp_succ(p + 1, p + 1) : sp_fail(p, p);'
+        if n == 'seq':
+            L = ['  u64 q = p, far = p; out_t a;']
+            for x in a:
+                L.append('  a = %s(q, end); if (a.far > far) far = a.far; if (a.r != 1) { if (a.r == 0) return sp_fail(p, far); return a; } q = a.pos;' % s.fn2(x))
+            L.append('  return sp_succ(q, far);')
+            return '\n'.join(L)
+        if n == 'sor':
+            L = ['  u64 far = p; out_t a;']
+            for x in a:
+                L.append('  a = %s(p, end); if (a.far > far) far = a.far; if (a.r != 0) { if (a.r == 1) a.far = far; return a; }' % s.fn2(x))
+            L.append('  return sp_fail(p, far);')
+            return '\n'.join(L)
+        if n == 'opt':
+            return '  out_t a = %s(p, end); if (a.r == 0) return sp_succ(p, a.far); return a;' % s.fn2(a[0])
+        if n == 'at':
+            return '  out_t a = %s(p, end); if (a.r == 1) return sp_succ(p, a.far); return a;' % s.fn2(a[0])
+        if n == 'not_at':
+            return '  out_t a = %s(p, end); if (a.r == 1) return sp_fail(p, a.far); if (a.r == 0) return sp_succ(p, a.far); return a;' % s.fn2(a[0])
+        raise ValueError('no sub-input semantics for %r' % e)
 
     def text(s):
         return '\n'.join(s.order)
